@@ -1,5 +1,5 @@
 """C11 - settings are validated, read back, and honoured in the bitstream (module EncCtl)."""
-import hashlib, json, os, re, threading, time
+import hashlib, json, os, re, threading, time, zlib
 import vf
 
 LEVEL = "model_checking"
@@ -14,7 +14,10 @@ PROVISIONAL = []
 
 CNT_NAMES = ["audio_packets", "ChannelsHonoured_binds", "ForceTakesEffect_binds", "BandwidthHonoured_binds_below_nyquist",
              "LowDelayIsCelt_binds", "ShortFramesAreCelt_binds", "setter_applied", "request_refused",
-             "SettingsUntouched_compared", "objects_created", "creations_refused", "allocation_failures"]
+             "SettingsUntouched_compared", "objects_created", "creations_refused", "allocation_failures",
+             "DurationHonoured_binds_buffer_longer_int16", "DurationHonoured_binds_buffer_longer_int24",
+             "DurationHonoured_binds_buffer_longer_float", "DurationHonoured_binds_buffer_longer_multistream",
+             "ChannelsHonoured_binds_first_packet_after_reset", "encode_refused_buffer_shorter_than_requested_duration"]
 
 _re_tuple = re.compile(r'<<\\"(\w+)\\"((?:, -?\d+)*)>>')
 
@@ -23,6 +26,7 @@ def history_to_script(h):
     """one TLC history (ToString of a sequence of tuples) -> script lines for hx_ctl replay"""
     out = []
     fs = 48000
+    ep = zlib.crc32(h.encode()) % 3       # the entry point rotates over the encode calls of a history
     for m in _re_tuple.finditer(h):
         tag = m.group(1)
         a = [int(x) for x in m.group(2).split(",")[1:]] if m.group(2) else []
@@ -36,10 +40,11 @@ def history_to_script(h):
         elif tag == "R":
             out.append("R")
         elif tag == "E":
-            out.append("E %d 1276 1" % a[0])
+            out.append("E %d 1276 1 %d" % (a[0], ep))
+            ep = (ep + 1) % 3
     # what the request did to the settings shows in the TOC of the next packets
-    out.append("E %d 1276 1" % (fs // 50))
-    out.append("E %d 1276 3" % (fs // 50))
+    out.append("E %d 1276 1 %d" % (fs // 50, ep))
+    out.append("E %d 1276 3 %d" % (fs // 50, (ep + 1) % 3))
     return out
 
 
@@ -113,7 +118,7 @@ def enrich(ev, prev, create, rj):
     """the fields a known-finding key may name"""
     d = dict(k=ev.get("k"), why=rj["why"], fields=rj["fields"], o=create.get("o"))
     d["oclass"] = {"mse": "ms_enc", "pje": "ms_enc", "msd": "ms_dec", "pjd": "ms_dec"}.get(d["o"], d["o"])
-    for f in ("req", "v", "r", "fs", "mb"):
+    for f in ("req", "v", "r", "fs", "mb", "ep", "rd", "ns"):
         if f in ev:
             d[f] = ev[f]
     for f in ("Fs", "ch", "app", "fam", "nch", "streams", "coupled"):
@@ -134,7 +139,7 @@ def match_known(d, entries):
 
 
 _re_set = re.compile(r'^\{"k":"(set|getnull|unk|reset|sget|dec)".*?(?:"req":(-?\d+))?(?:,"v":(-?\d+))?,"r":(-?\d+)')
-_re_enc = re.compile(r'^\{"k":"enc".*?"fs":(-?\d+),"mb":(-?\d+),"sig":(\d),"r":(-?\d+),"cok":\d,"h":\[(\d*)')
+_re_enc = re.compile(r'^\{"k":"enc".*?"fs":(-?\d+),"mb":(-?\d+),"sig":(\d),"r":(-?\d+),"cok":\d,"h":\[(\d*)[\d,]*\],"ep":(\d),"rd":(-?\d+),"ns":(-?\d+)')
 _re_g = re.compile(r'"g":\{"app":(\d+),"sr":(\d+),"br":(-?\d+),"vbr":(\d),"cvbr":(\d),"cx":(\d+),"fc":(-?\d+),"maxbw":(\d+)')
 
 
@@ -158,10 +163,17 @@ def scan_trace(ctx, path, stats):
             m = _re_enc.match(ln)
             if m:
                 stats["encode_calls"] = stats.get("encode_calls", 0) + 1
+                epn = ("int16", "int24", "float")[int(m.group(6))]
+                stats["encode_calls_" + epn] = stats.get("encode_calls_" + epn, 0) + 1
                 if int(m.group(4)) > 0:
                     stats["packets"] = stats.get("packets", 0) + 1
+                    if int(m.group(7)) != 5000 and int(m.group(1)) > int(m.group(8)) > 0:
+                        k = "packets_shorter_than_buffer_%s_%s" % (cur, epn)
+                        stats[k] = stats.get(k, 0) + 1
                     g = _re_g.search(ln)
-                    ctx.nontrivial.add(hash((cur, m.group(1), m.group(5), g.group(0) if g else "")))
+                    ctx.nontrivial.add(hash((cur, m.group(1), m.group(5), m.group(6), g.group(0) if g else "")))
+                elif int(m.group(4)) == -1:
+                    stats["encode_bad_arg"] = stats.get("encode_bad_arg", 0) + 1
                 continue
             m = _re_set.match(ln)
             if m:
@@ -174,10 +186,16 @@ def run(ctx):
     tier = ctx.tier
     ctx.rule = ("TLC checks DomainsHold/GetterTotal/EncodeFeasible (invariants) and RejectKeepsAll/OnlySettersWrite (action "
                 "properties) on EncCtl_mc over every request sequence up to the configured depth on the per-request boundary grid; "
-                "hx_ctl replays TLC-generated request histories (full grid, depth 1-2), a creation/init/allocation-failure grid and "
-                "seeded random histories interleaved with encodes on encoder, decoder, multistream and projection objects, reading ALL "
-                "getters after every call; EncCtlTrace judges return code, the complete read-back record and the TOC obligations after "
-                "every event. non-trivial = distinct (object kind, request, value, return code) control events, distinct creation "
+                "TLC checks on EncCtlFsel_mc that the transcription of frame_size_select(), the model's FrameSizeSelect and the declarative "
+                "reading agree on the whole grid (Fs, duration setting, application, channels, every buffer length 0..120 ms + 2.5 ms + 8); "
+                "hx_ctl replays TLC-generated request histories (full grid, depth 1-2), a creation/init/allocation-failure grid, the "
+                "frame-duration grid (every Fs x channels x application x OPUS_SET_EXPERT_FRAME_DURATION value x PCM entry point "
+                "[opus_encode, opus_encode24, opus_encode_float] with the caller's buffer exactly as long as / longer than / shorter than "
+                "the requested duration), forced-channel/bandwidth settings in force before the first frame across OPUS_RESET_STATE, and "
+                "seeded random histories interleaved with encodes (entry point drawn per call) on encoder, decoder, multistream and "
+                "projection objects, reading ALL getters after every call; every encode event carries entry point, requested duration, "
+                "buffer length and the packet's duration (opus_packet_get_nb_samples); EncCtlTrace judges return code, the complete "
+                "read-back record, DurationHonoured and the TOC obligations after every event. non-trivial = distinct (object kind, request, value, return code) control events, distinct creation "
                 "argument tuples, and distinct (frame size, TOC, settings) packets")
     ctx.assumptions = [
         "TLC and the CommunityModules Json reader are trusted",
@@ -205,6 +223,8 @@ def run(ctx):
                                    workers=2, timeout=600, heap="2g",
                                    require_actions=["DoSet", "DoGetNull", "DoUnknown", "DoReset", "DoEncode",
                                                     "DoDecSet", "DoDecGetNull", "DoDecReset"])
+            mc_res["fsel"] = ctx.mc("EncCtlFsel_mc", "EncCtlFsel_mc.cfg", what="frame-size selection on the whole grid (Fs, duration "
+                                    "setting, application, channels, buffer length)", deadlock=True, workers=2, timeout=900, heap="2g")
             cfg = "EncCtl_mc_quick.cfg" if tier == "quick" else "EncCtl_mc_thorough.cfg"
             mc_res["mc"] = ctx.mc("EncCtl_mc", cfg, what="EncCtl design theorems " + cfg, deadlock=True,
                                   workers=4 if tier == "quick" else 8, timeout=600 if tier == "quick" else 3000, heap="3g")
@@ -243,6 +263,18 @@ def run(ctx):
     if rc != 0:
         raise vf.Infra("gen-create failed: " + err[-500:])
     scripts.append(("create", p))
+    # frame-duration grid: every (Fs, channels, application, duration setting, entry point), buffers exact / longer / shorter
+    p = ctx.path("durgrid.txt")
+    rc, err = vf.run_hx(exe, ["gen-durgrid", s], p)
+    if rc != 0:
+        raise vf.Infra("gen-durgrid failed: " + err[-500:])
+    scripts.append(("durgrid", p))
+    # settings in force before the first frame across OPUS_RESET_STATE (quick: a seed-dependent sixth of the grid)
+    p = ctx.path("reset.txt")
+    rc, err = vf.run_hx(exe, ["gen-reset", s, 6 if tier == "quick" else 1], p)
+    if rc != 0:
+        raise vf.Infra("gen-reset failed: " + err[-500:])
+    scripts.append(("reset", p))
     nrand, nexec, steps = (8, 90, 30) if tier == "quick" else (16, 600, 40)
     for i in range(nrand):
         p = ctx.path("rand_%02d.txt" % i)
@@ -253,7 +285,7 @@ def run(ctx):
 
     # 3. split into jobs (whole executions), replay through the library, validate with TLC
     jobs = []
-    maxexec = {"gen": 800, "create": 4000, "random": 400}
+    maxexec = {"gen": 800, "create": 4000, "random": 400, "durgrid": 150, "reset": 120}
     for name, p in scripts:
         base = name.split(":")[0]
         nx = sum(1 for ln in open(p) if ln.startswith("N "))
@@ -313,7 +345,7 @@ def run(ctx):
     th.join()
     if "err" in mc_res:
         raise mc_res["err"]
-    for k in ("cov", "mc", "dense"):
+    for k in ("cov", "fsel", "mc", "dense"):
         if k not in mc_res:
             continue
         r = mc_res[k]
@@ -368,7 +400,7 @@ def judge_rejection(ctx, exe, known, trace, script, rj, name):
     en = match_known(d, known)
     desc = "%s: clause %s %s at %s event %s" % (create.get("o"), rj["why"], rj["fields"],
                                                 {k: create.get(k) for k in ("Fs", "ch", "app", "nch", "streams", "coupled", "fam") if k in create},
-                                                {k: ev.get(k) for k in ("k", "req", "v", "fs", "mb", "r") if k in ev})
+                                                {k: ev.get(k) for k in ("k", "req", "v", "fs", "mb", "r", "ep", "rd", "ns") if k in ev})
     if en:
         tag = en.get("id", "")
         if not any(w.startswith(tag + " ") for w in ctx.known):
@@ -430,7 +462,9 @@ META = dict(
                 "libopus by replay: every TLC-generated history (the full grid from a fresh and from a running encoder, all Fs x channels "
                 "x application), a creation/init grid with malloc fault injection, and seeded random histories with encodes of "
                 "non-stationary signals and silence on encoder, decoder, multistream and projection objects are executed, ALL getters "
-                "are read after every call, and EncCtlTrace judges return code, the complete record and DurationMatches, ChannelsHonoured, "
+                "are read after every call, and EncCtlTrace judges return code, the complete record and DurationHonoured (all three PCM entry "
+                "points, caller buffers longer/shorter than the requested duration; frame_size_select transcribed and checked by TLC on the "
+                "whole grid), DurationMatches, ChannelsHonoured (also on the first packet after OPUS_RESET_STATE), "
                 "ForceTakesEffect, BandwidthHonoured, LowDelayIsCelt, ShortFramesAreCelt, SettingsUntouched on every event."),
     level_note=("Trusted: TLC, the Json module, my reading of opus_defines.h. Histories longer than the generated depth and signals are "
                 "sampled, not exhausted. OPUS_SET_BANDWIDTH cannot be read back and is checked through packet TOCs only. Multistream "
